@@ -124,6 +124,16 @@ fn gen_case(prop: &str, seed: u64, i: u64, corpus: &Corpus) -> Case {
     let p = operator_table(&mut rng);
     return Case { kind: "operator-table".into(), label: format!("table {i}"), user: p, entry: "ops.Table".into(), features: BTreeSet::new() };
   }
+  if prop == "C03" && i % 9 == 4 {
+    // a module of binding constructs with one ill-formed pattern: a correct checker rejects it
+    // (counted), but if it is accepted it must still compile and run without going wrong
+    let base = crate::exprgen::binder_zoo(&mut rng);
+    let faults = crate::exprgen::pattern_faults(&base, &mut rng);
+    if !faults.is_empty() {
+      let (op, text) = faults[rng.below(faults.len())].clone();
+      return Case { kind: "pattern-fault-mutant".into(), label: op.to_string(), user: Project::single("Zoo", &text), entry: "Zoo".into(), features: BTreeSet::new() };
+    }
+  }
   if prop == "C03" && i % 3 == 2 {
     // accepted mutant of a sample program: mutate one tests file, run its `run()` from a new Main
     let runnable: Vec<&(String, String)> = corpus.tests.iter().filter(|(n, t)| t.contains("function run(): unit") && n != "tests.AllTests" && n != "tests.Benchmark").collect();
